@@ -1,5 +1,5 @@
 SPECIFICATION Spec
-CONSTANTS MsgSrc <- S5  MsgMid <- M5  MsgTot <- T5  CapSrc = 2  CapAll = 3  MaxDeliv = 6  MaxTick = 3
+CONSTANTS MsgSrc <- S6  MsgMid <- M6  MsgTot <- T6  CapSrc = 2  CapAll = 3  MaxDeliv = 4  MaxTick = 2
   GridP <- GP  GridMM <- GM
   DecOnComplete = TRUE  DupCheck = TRUE  TotalCheck = TRUE  CapStrict = TRUE  GcOn = TRUE
 INVARIANT NoViolation
